@@ -116,6 +116,10 @@ def recovery_cells(tier, seed):
             for tau in (0.3, 0.4, 0.5, 0.6, 0.7):
                 for n in (3000, 5000):
                     cases.append({'family': fam, 'tau': tau, 'n': n, 'seed': int(rs.randint(0, 2 ** 31 - 1)), 'K': K})
+            # very strong dependence as well (Frank only up to tau 0.85: its CDF overflows for theta > 37, i.e. tau > 0.9,
+            # which is outside the supported range of C06 and makes the tail comparison meaningless there)
+            for tau in ((0.85, 0.93) if fam != 'frank' else (0.85,)):
+                cases.append({'family': fam, 'tau': tau, 'n': 3000, 'seed': int(rs.randint(0, 2 ** 31 - 1)), 'K': max(40, K // 5)})
             # "n >= 3000": a few large samples per family as well (fewer datasets, they are expensive)
             for tau, n in ((0.3, 12000), (0.6, 20000)):
                 cases.append({'family': fam, 'tau': tau, 'n': n, 'seed': int(rs.randint(0, 2 ** 31 - 1)), 'K': max(40, K // 5)})
@@ -140,7 +144,7 @@ def oracle_recovery(case):
     p = vs.binom_pvalue_below(ok, K, 0.7)
     require(p >= vs.ALPHA_I, 'select_copula recovered %s (tau=%r, n=%d) in only %d of %d datasets (%r); required >= 70%%, binomial p=%.3g'
             % (fam, tau, n, ok, K, picks, p), tag='recovery')
-    return {'nontrivial': True, 'classes': ['cell:%s/%.1f/%d' % (fam, tau, n), 'rate>=0.9' if ok >= 0.9 * K else 'rate<0.9']}
+    return {'nontrivial': True, 'classes': ['cell:%s/%.2f/%d' % (fam, tau, n), 'rate>=0.9' if ok >= 0.9 * K else 'rate<0.9']}
 
 
 SUBS = [
